@@ -2028,6 +2028,12 @@ func NewData(uuid dvid.UUID, id dvid.InstanceID, name dvid.InstanceName, c dvid.
 	data.MaxDownresLevel = downresLevels
 
 	data.Initialize()
+
+	// Persist the initial repo-wide max label so that a restart before any label is stored
+	// loads 0 rather than falling back to veryLargeLabel.
+	if err := data.persistMaxRepoLabel(); err != nil {
+		return nil, err
+	}
 	return data, nil
 }
 
